@@ -6,4 +6,19 @@ pub mod shim {
     pub fn fmt_opaque() -> (r: String) {
         String::new()
     }
+
+    // RW stand-in for the statement
+    //     for (idx, (x, y)) in A.iter().zip(B.iter()).enumerate() { iv[idx] = x ^ y; }
+    // (iterator zip/enumerate over references is outside Verus). ASSUMED effect: iv[i] = A[i] ^ B[i] for i < min(|A|,|B|),
+    // the rest of iv unchanged; it indexes iv[idx] for idx < min(|A|,|B|), hence the precondition.
+    #[verifier::external_body]
+    pub fn xor_zip_into(iv: &mut [u8; 8], a: &[u8], b: &[u8])
+        requires a@.len() <= 8 || b@.len() <= 8
+        ensures
+            forall|i: int| 0 <= i < 8 ==> #[trigger] final(iv)@[i] == (if i < a@.len() && i < b@.len() { a@[i] ^ b@[i] } else { old(iv)@[i] }),
+    {
+        for (idx, (x, y)) in a.iter().zip(b.iter()).enumerate() {
+            iv[idx] = x ^ y;
+        }
+    }
 }
